@@ -12,7 +12,7 @@ request : `<stride> <crash01> <deadwarn01> <obs|-> stmt*`
     found it referenced), `?<id>` (the probe emitted nothing at all – counted as the unknown symbol `100000+id`)
   * statements: `L<m>` leaf, `L<m>:<k><sym>` leaf about symbol `sym` with `k` = `i` label+instruction, `p` label+pseudo-op,
     `m` label+macro call, `n`/`g`/`k` label+call of an INTLABEL macro (label unused / placed by the body with
-    GLOBALSYMBOLS / placed locally), `s` label+structure instantiation, `e` EQU, `t` SET, `u` reference · `I<argc>:<cond>` with cond `e<0|1>`, `d|u|x<neg><raw>`, `b<neg><flags>` ·
+    GLOBALSYMBOLS / placed locally), `s` label+structure instantiation, `e` EQU, `t` SET, `u` reference, `D` `#define` of text replacement `sym`, `U` `#undef` of it (observed as `x<sym>`: the probe behind the construct found the replacement established resp. removed; SPEC: the set = `effectsOf (selB b)`, why=effects) · `I<argc>:<cond>` with cond `e<0|1>`, `d|u|x<neg><raw>`, `b<neg><flags>` ·
     `EI<argc>:<0|1>` ELSEIF/ELSE · `EN<argc>` ENDIF · `S<argc>:<val>` · `C:<val>,…` · `EC<argc>` · `ED<argc>`
     with val `i<int>`, `f<int>`, `s<hex|->` · `Z[:<how>]` a line that issues END (`how` = spelling, ignored here)
 answer  : `wn=<0|1> skel=<0|1> mout=<hex> merrs=<list> mcrash=<0|1> mstack=<n>` and, with obs,
@@ -65,7 +65,8 @@ def splitColon (s : String) : String × String :=
 def parseKind : Char → Option LeafKind
   | 'i' => some .instr | 'p' => some .pseudo | 'm' => some .macro | 'n' => some .macroInt
   | 'g' => some .macroIntGlobal | 'k' => some .macroIntLocal | 's' => some .struct
-  | 'e' => some .equ | 't' => some .set | 'u' => some .use | _ => none
+  | 'e' => some .equ | 't' => some .set | 'u' => some .use
+  | 'D' => some .ppDefine | 'U' => some .ppUndef | _ => none
 
 def parseLeaf (m : String) (t : String) : Option Leaf := do
   let m ← m.toNat?
@@ -175,12 +176,13 @@ structure ObsDef where
   b0 : Option Nat
   b1 : Option Nat
 
-def parseSyms (s : String) : Option (List ObsDef × List Nat) :=
-  if s = "-" ∨ s = "" then some ([], []) else
-  (s.splitOn ",").foldlM (init := (([], []) : List ObsDef × List Nat)) fun (ds, us) it =>
+def parseSyms (s : String) : Option (List ObsDef × List Nat × List Nat) :=
+  if s = "-" ∨ s = "" then some ([], [], []) else
+  (s.splitOn ",").foldlM (init := (([], [], []) : List ObsDef × List Nat × List Nat)) fun (ds, us, xs) it =>
     match it.toList with
-    | 'u' :: r => (String.ofList r).toNat?.map fun n => (ds, us ++ [n])
-    | '?' :: r => (String.ofList r).toNat?.map fun n => (ds ++ [{ id := 100000 + n, value := 0, b0 := none, b1 := none }], us)
+    | 'u' :: r => (String.ofList r).toNat?.map fun n => (ds, us ++ [n], xs)
+    | 'x' :: r => (String.ofList r).toNat?.map fun n => (ds, us, xs ++ [n])
+    | '?' :: r => (String.ofList r).toNat?.map fun n => (ds ++ [{ id := 100000 + n, value := 0, b0 := none, b1 := none }], us, xs)
     | 'd' :: r =>
       match (String.ofList r).splitOn "=" with
       | [i, rest] =>
@@ -188,7 +190,7 @@ def parseSyms (s : String) : Option (List ObsDef × List Nat) :=
         | [v, b0, b1] => do
           let i ← i.toNat?
           let v ← v.toNat?
-          pure (ds ++ [{ id := i, value := v, b0 := b0.toNat?, b1 := b1.toNat? }], us)
+          pure (ds ++ [{ id := i, value := v, b0 := b0.toNat?, b1 := b1.toNat? }], us, xs)
         | _ => none
       | _ => none
     | _ => none
@@ -258,15 +260,16 @@ def handle (line : String) : String :=
       match (match obs.splitOn ";" with | [a, b, c] => some (a, b, c, "-") | [a, b, c, d] => some (a, b, c, d) | _ => none) with
       | some (oh, oe, ost, osy) =>
         match unhex oh, natList oe, parseSyms osy with
-        | some ob, some oerrs, some (odefs, ouses) =>
+        | some ob, some oerrs, some (odefs, ouses, oeffs) =>
           let odset := toSet (odefs.map (·.id))
           let ouset := toSet ouses
+          let oxset := toSet oeffs
           let omark := ob.map UInt8.toNat
           let ocrash := ost = "sig"
           let meq :=
             if m.crashed then ocrash
             else !ocrash && omark == mout.map (· % 256) && oerrs == merrs && (ost == (if (hardErrs m).isEmpty then "0" else "2"))
-              && (!(hardErrs m).isEmpty || (odset == toSet m.defs && ouset == toSet m.uses))
+              && (!(hardErrs m).isEmpty || (odset == toSet m.defs && ouset == toSet m.uses && oxset == toSet m.effs))
           let ohard := oerrs.filter (· ≥ 1000)
           let owarn := (oerrs.filter (· == 100)).length
           let (spec, why) : String × String :=
@@ -279,6 +282,7 @@ def handle (line : String) : String :=
               else if odset != toSet (definedBy (selB b)) then ("bad", "symbols")
               else if !(odefs.all fun o => (selB b).any fun l => l.defines.contains o.id && valueOK l o) then ("bad", "label-value")
               else if ouset != toSet (usedBy (selB b)) then ("bad", "used")
+              else if oxset != toSet (effectsOf (selB b)) then ("bad", "effects")
               else ("ok", "-")
             | none =>
               if cons.isNone then
